@@ -1229,7 +1229,7 @@ def gen_dispatch():
             return ("result of", nm)
         return f
     geos = {}
-    for cn in ("TriaMesh", "TetMesh", "VoxelGrid"):
+    for cn in ("TriaMesh", "TetMesh", "VoxelGrid", "Mesh", "Tria", "Tet", "TriaMesh2", "triamesh"):
         geos[cn] = type(cn, (), {})()
     arg = object()
     try:
